@@ -35,6 +35,7 @@ class Env:
         self.fn_calls = 0
         self.dead_at_error = None
         self.poison = set(poison)
+        self.flaky = set()        # (worker, input): the next enqueue of that pair raises although the worker is alive
 
     def ready(self, k):
         return bool(self.chan[k]) or self.eof[k]
@@ -111,6 +112,10 @@ class FakeWorker:
             self.env.livelock = True
         if not self.env.alive[self.k]:
             raise WorkerClosedError(self)
+        if (self.k, x) in self.env.flaky:
+            # a transient failure of enqueue on a live worker (the pool is expected to offer the same input again)
+            self.env.flaky.discard((self.k, x))
+            raise RuntimeError('transient enqueue failure')
         self.env.inbox[self.k].append(x)
         self.env.enq_ok.append((self.k, x))
 
@@ -130,9 +135,10 @@ class FakeWorker:
         return f'FakeWorker({self.k})'
 
 
-def run_script(n, inputs, script, retry=True, extra=0, return_results=True, refused=(), pool=None, env=None, pre=()):
+def run_script(n, inputs, script, retry=True, extra=0, return_results=True, refused=(), pool=None, env=None, pre=(), flaky=()):
     """Run the real Pool.run under the script. Returns dict(outcome, ret, enq, closed, env, pool, conns)."""
     env = env or Env(n, script)
+    env.flaky = set(flaky)
     refused = set(refused)
     if pool is None:
         pool = P.Pool(lambda x: x, retry=retry)
